@@ -168,6 +168,58 @@ def dual_case(where, blob=None):
             'unflatten': shape(rebuilt) == shape(expect), 'repr': repr(loaded) == repr(fresh_ns)}, blob.hex()
 
 
+class HistNode(U._CustomBase):
+    """same-process history: load, unregister, load, re-register with different functions, load (the unpickler must consult the
+    registry as it is NOW, every time) and several pickle generations"""
+
+
+def history_case():
+    ns = 'phist'
+    # (custom nodes with two plain leaves: the structure is the same under either registration, only the functions differ)
+    tree = {'k': HistNode([U.Leaf(3), U.Leaf(4)], 7), 'j': [HistNode([U.Leaf(0), U.Leaf(1)], 8)], 'd': {'x': {}, 'y': U.defaultdict(int, q=1)}}
+
+    def shape(x):
+        return [(c.children, c.meta) if isinstance(c, HistNode) else c for c in optree.tree_leaves(x, is_leaf=lambda y: isinstance(y, HistNode))]
+    out = {'op': 'pickle-history'}
+    optree.register_pytree_node(HistNode, lambda x: (tuple(x.children), ('meta', x.meta)), lambda m, ch: HistNode(list(ch), m[1]), namespace=ns)
+    try:
+        spec1 = optree.tree_structure(tree, namespace=ns)
+        blob = pickle.dumps(spec1)
+        gens, cur = [], spec1
+        for _ in range(3):
+            try:
+                cur = pickle.loads(pickle.dumps(cur))
+                gens.append(cur == spec1 and hash(cur) == hash(spec1) and repr(cur) == repr(spec1))
+            except Exception:  # noqa: BLE001
+                gens.append(False)
+                break
+        out['generations_equal'] = gens == [True, True, True]
+        optree.unregister_pytree_node(HistNode, namespace=ns)
+        try:
+            pickle.loads(blob)
+            out['load_after_unregister_raises'] = False
+        except Exception:  # noqa: BLE001
+            out['load_after_unregister_raises'] = True
+        # a different registration of the same class: children reversed, rebuilt reversed
+        optree.register_pytree_node(HistNode, lambda x: (tuple(reversed(x.children)), ('meta', x.meta)),
+                                    lambda m, ch: HistNode(list(reversed(ch)), m[1]), namespace=ns)
+        fresh2 = optree.tree_structure(tree, namespace=ns)
+        try:
+            l4 = pickle.loads(blob)
+            n = l4.num_leaves
+            out['load_after_reregister_bound_to_current'] = (l4 == fresh2 and hash(l4) == hash(fresh2)
+                                                             and shape(l4.unflatten(list(range(n)))) == shape(fresh2.unflatten(list(range(n)))))
+        except Exception:  # noqa: BLE001
+            out['load_after_reregister_bound_to_current'] = False
+        out['old_treespec_alive'] = spec1.num_leaves == fresh2.num_leaves
+    finally:
+        try:
+            optree.unregister_pytree_node(HistNode, namespace=ns)
+        except Exception:  # noqa: BLE001
+            pass
+    return out
+
+
 def malformed_main(outp):
     """single-field corruptions of valid states must raise a Python exception (never crash, never yield a treespec silently wrong)"""
     U.setup_world()
@@ -225,6 +277,7 @@ def main():
                 for b in bs:
                     fb.write(b + '\n')
             fc.write(json.dumps(dcase) + '\n')
+            fc.write(json.dumps(history_case()) + '\n')
     elif mode == 'load':
         load_main(sys.argv[2], sys.argv[3], sys.argv[4])
     elif mode == 'malformed':
